@@ -12,7 +12,7 @@ TYPES = ['Aa', 'Bb', 'Cc', 'Dd']
 # tier -> list of sweeps: (max operators, atoms or None, n_max, l_max, two_member, both link orders)
 QUICK_ATOMS = ('down', 'peers', 'rights', 'owner', 'vcut', 'vdown')
 PLANS = {
-    'quick': [(1, None, 3, 2, True, True), (2, QUICK_ATOMS, 3, 2, False, False)],
+    'quick': [(1, None, 3, 2, True, True), (2, QUICK_ATOMS, 3, 2, False, False), (2, 'NESTED', 3, 2, True, False)],
     'thorough': [(1, None, 4, 2, True, True), (2, None, 3, 2, True, False), (2, QUICK_ATOMS, 3, 3, False, False),
                  (3, ('down', 'peers', 'rights', 'vdown'), 3, 2, False, False)],
 }
@@ -20,7 +20,25 @@ PLANS = {
 _BASE = sem.Lang(families.sem_lang())
 
 
+def _nested_setop(e):
+    """a set operator that is applied after a navigation / under a closure (where the per-asset and the
+    pooled reading differ)"""
+    k = e['type']
+    if k == 'collect':
+        return sem.has(e['rhs'], 'intersection') or sem.has(e['rhs'], 'difference') or sem.has(e['rhs'], 'union') \
+            or _nested_setop(e['lhs'])
+    if k in ('transitive', 'subType'):
+        inner = e['stepExpression']
+        return inner['type'] in ('union', 'intersection', 'difference') and k == 'transitive' or _nested_setop(inner)
+    if k in ('union', 'intersection', 'difference'):
+        return _nested_setop(e['lhs']) or _nested_setop(e['rhs'])
+    return False
+
+
 def expressions(kmax, atoms):
+    if atoms == 'NESTED':
+        aa = [e for e, _t in sem.gen_upto(_BASE, 'Aa', kmax, {'down', 'peers', 'peersOf'}) if _nested_setop(e)]
+        return aa, []
     aa = [e for e, _t in sem.gen_upto(_BASE, 'Aa', kmax, set(atoms) if atoms else None)]
     dd = [e for e, _t in sem.gen_upto(_BASE, 'Dd', min(kmax, 2), None)]
     return aa, dd
